@@ -384,8 +384,9 @@ def rule_step_value(chk, tree, order):
             bad.setdefault('override-first', 'a path consults the criteria without first asking for an explicit dt_adapt')
             continue
         # factor names, positionally
-        un = [e for e in p_ if e.kind == 'stmt' and isinstance(e.node, ast.Assign) and isinstance(e.node.targets[0], ast.Tuple) and isinstance(e.node.value, ast.Call)
-              and PT.callee(e.node.value, e.env) == 'self._get_dt_adapt_factors']
+        # (the three factors may be unpacked from the call itself or from a local that holds its result)
+        un = [e for e in p_ if e.kind == 'stmt' and isinstance(e.node, ast.Assign) and isinstance(e.node.targets[0], ast.Tuple)
+              and isinstance(PT.resolve(e.node.value, e.env), ast.Call) and PT.callee(PT.resolve(e.node.value, e.env), {}) == 'self._get_dt_adapt_factors']
         if len(un) != 1 or len(un[0].node.targets[0].elts) != 3:
             bad.setdefault('formula', 'the three factors of _get_dt_adapt_factors() are not unpacked once on a path')
             continue
@@ -437,6 +438,8 @@ def rule_step_value(chk, tree, order):
                 for a_, b_ in ((rv.left, rv.right), (rv.right, rv.left)):
                     if isinstance(b_, ast.Call) and M.call_name(b_) == 'min':
                         k_, mn = a_, b_
+            if isinstance(mn, ast.Call) and M.call_name(mn) == 'min' and len(mn.args) == 1 and isinstance(mn.args[0], (ast.Tuple, ast.List)):
+                mn = ast.Call(func=mn.func, args=list(mn.args[0].elts), keywords=[])           # min((a, b, c)) is min(a, b, c)
             if not (isinstance(mn, ast.Call) and M.call_name(mn) == 'min'):
                 bad.setdefault('min-of-all-criteria', 'the returned step %s is not (a multiple of) the minimum over the criteria' % U(rv))
                 continue
@@ -624,36 +627,43 @@ def rule_consulted_every_step(chk):
     """the adaptive criteria are consulted for every step the solver proposes"""
     t = M.py(SOL)
     gt = M.find_method(t, 'Solver', '_get_timestep')
-    g = C.build_cfg(gt)
-    comp = [n.id for n in g.nodes if n.ast is not None and isinstance(n.ast, (ast.Assign, ast.Expr)) and
-            any(M.call_name(c) == 'self._compute_timestep' for c in M.calls(n.ast))]
-    rets = [n for n in g.nodes if isinstance(n.ast, ast.Return)]
-    cont = [n for n in rets if not (M.enclosing(n.ast, (ast.If,)) is not None and
-                                    N.same(M.enclosing(n.ast, (ast.If,)).test, 'abs(self.tf-self.t)<self._epsilon', 'abs(self.t-self.tf)<self._epsilon'))]
-    ok = bool(comp) and bool(cont) and all(g.must_pass(g.entry, r.id, comp) for r in cont)
+    # per path, locals substituted: unless the run has reached its final time, a step is returned only after _compute_timestep() was called
+    from verif_static import paths as PT
+    ok, nret = True, 0
+    for p_ in PT.enumerate_paths(M.docstring_stripped(gt.body)):
+        if p_[-1].kind != 'return':
+            continue
+        nret += 1
+        at_end = PT.took(p_, True, 'abs(self.tf-self.t)<self._epsilon', 'abs(self.t-self.tf)<self._epsilon') is not None
+        called = any(cal == 'self._compute_timestep' for i, c, cal, env in PT.calls_on(p_))
+        if not at_end and not called:
+            ok = False
+    ok = ok and nret > 0
     chk.decide(ok, 'fallback-to-fixed-step', 'criteria-consulted-for-every-step', node=gt, file=SOL, func='Solver._get_timestep',
                detail_bad='some path proposes the next step without calling _compute_timestep(): a stale step (e.g. the one saved before a '
                           'step shortened to an output time) is reused although the criteria have tightened',
                detail_ok='every continuing path calls _compute_timestep()')
     # after the criteria have been consulted the proposed step may only be shortened: the one adjustment allowed is landing on the final time,
     # and only when the step would otherwise pass tf - epsilon (so the step grows by at most epsilon, never to a multiple of itself)
-    M.set_parents(gt)
-    rv = set(U(r.value) for r in ast.walk(gt) if isinstance(r, ast.Return) and isinstance(r.value, ast.Name))
-    last = max([g.nodes[c_].ast.lineno for c_ in comp] or [0])
-    for a in ast.walk(gt):
-        if isinstance(a, (ast.Assign, ast.AugAssign)) and a.lineno > last:
-            tg = U(a.targets[0]) if isinstance(a, ast.Assign) else U(a.target)
-            if tg not in rv:
-                continue
-            if isinstance(a, ast.Assign) and any((M.call_name(c_) or '') in ('self._damp_timestep', 'self._compute_timestep') for c_ in M.calls(a)):
-                continue
-            gi = M.enclosing(a, (ast.If,))
-            ok = isinstance(a, ast.Assign) and N.same(a.value, 'self.tf - self.t') and gi is not None and a in gi.body and \
-                N.same(gi.test, 'self.t + %s > self.tf - self._epsilon' % tg, 'self.t + %s >= self.tf - self._epsilon' % tg)
-            chk.decide(ok, 'fallback-to-fixed-step', 'stable-step-only-shortened:%s' % U(a)[:40], node=a, file=SOL, func='Solver._get_timestep',
-                       detail_bad='after the stability criteria were applied the step is changed by `%s` under `%s`: only `dt = tf - t` when t + dt > tf - epsilon is allowed '
-                                  '(any wider window lets the last step exceed the stable step)' % (U(a), U(gi.test) if gi is not None else 'no guard'),
-                       detail_ok='dt = tf - t only when t + dt would pass tf - epsilon')
+    D_ = 'self._damp_timestep(self._compute_timestep())'
+    bad_s, nst = None, 0
+    for p_ in PT.enumerate_paths(M.docstring_stripped(gt.body)):
+        if p_[-1].kind != 'return' or p_[-1].node.value is None:
+            continue
+        if PT.took(p_, True, 'abs(self.tf-self.t)<self._epsilon', 'abs(self.t-self.tf)<self._epsilon') is not None:
+            continue
+        nst += 1
+        rv_ = PT.resolve(p_[-1].node.value, p_[-1].env)
+        if compact(rv_) == D_:
+            # the stable (damped) step as computed - on the path where it does not pass the final time
+            continue
+        lands = PT.took(p_, True, 'self.t + %s > self.tf - self._epsilon' % D_, 'self.t + %s >= self.tf - self._epsilon' % D_)
+        if not (N.same(rv_, 'self.tf - self.t') and lands is not None):
+            bad_s = bad_s or (U(rv_)[:80], [U(PT.resolve(e.node, e.env))[:70] + ' -> %s' % e.truth for e in p_ if e.kind == 'cond'][-2:])
+    chk.decide(bad_s is None and nst >= 2, 'fallback-to-fixed-step', 'stable-step-only-shortened', node=gt, file=SOL, func='Solver._get_timestep',
+               detail_bad='after the stability criteria were applied a path returns `%s` (tests: %s): only the damped computed step, or `tf - t` when t + dt > tf - epsilon, is allowed '
+                          '(any wider window lets the last step exceed the stable step)' % (bad_s or ('', '')),
+               detail_ok='dt = tf - t only when t + dt would pass tf - epsilon (%d paths)' % nst)
     sv = M.find_method(t, 'Solver', 'solve')
     nxt = [a for a in ast.walk(sv) if isinstance(a, ast.Assign) and U(a.targets[0]) == 'self.dt' and M.call_name(a.value) == 'self._get_timestep']
     chk.decide(len(nxt) == 2, 'fallback-to-fixed-step', 'solver-asks-before-every-step', node=sv, file=SOL, func='Solver.solve',
